@@ -226,6 +226,10 @@ class AstToDjangoQVisitor(visitor.NodeVisitor):
             flipped = COMPARISON_FLIP[type(node.comparator)]()
             return self.visit_Compare(ast.Compare(flipped, node.right, node.left))
 
+        if isinstance(node.left, ast.Null) and isinstance(node.comparator, ast.In):
+            # Django cannot determine the type of a bare NULL on the left side:
+            raise ex.TypeException(node.comparator.__class__.__name__, "null")
+
         lhs = self.visit(node.left)
 
         # Special case: comparison to NULL => isnull=True/False
